@@ -158,8 +158,8 @@ func (s *SSD) OnSurvey(surveyType string, payload []byte) ([]byte, bool) {
 	}
 
 	// Decode the request
-	var query lookupQuery
-	if err := binary.Unmarshal(payload, &query); err != nil {
+	query, err := decodeLookupQuery(payload)
+	if err != nil {
 		return nil, false
 	}
 
